@@ -724,6 +724,7 @@ vbi3_raw_decoder_remove_services
 {
 	_vbi3_raw_decoder_job *job;
 	unsigned int job_num;
+	vbi_service_set siblings;
 
 	assert (NULL != rd);
 
@@ -731,9 +732,14 @@ vbi3_raw_decoder_remove_services
 
 	job = rd->jobs;
 	job_num = 0;
+	siblings = 0;
 
 	while (job_num < rd->n_jobs) {
 		if (job->id & services) {
+			/* Services sharing this job (field 1 and 2,
+			   level 1.0 and 2.5) which shall stay. */
+			siblings |= job->id & ~services;
+
 			if (rd->pattern)
                                 remove_job_from_pattern (rd, job_num);
 
@@ -749,7 +755,13 @@ vbi3_raw_decoder_remove_services
 		}
 	}
 
-	rd->services &= ~services;
+	rd->services &= ~(services | siblings);
+
+	/* The job is gone with all its lines, add the remaining
+	   services again. They passed the sampling parameter
+	   checks before, strict 0 will not refuse them now. */
+	if (0 != siblings)
+		vbi3_raw_decoder_add_services (rd, siblings, /* strict */ 0);
 
 	return rd->services;
 }
